@@ -80,6 +80,7 @@ impl Prop for Spans {
                 let lines = crate::c01::split_lines(text);
                 let mut acc = Acc::new();
                 let mut multi_after = false;
+                let mut comments = 0;
                 let mut ntok = 0;
                 for (i, l) in lines.iter().enumerate() {
                     if let Some(ui) = out.ui.get(i) {
@@ -89,9 +90,20 @@ impl Prop for Spans {
                             break;
                         }
                         multi_after |= ui.iter().any(|t| l.chars().take(t.start).any(|ch| ch.len_utf8() > 1));
+                        // exactness that needs no knowledge of the line's structure: the first '#' starts the comment,
+                        // which is reported as one Comment token reaching to the end of the line
+                        // (a lone CR inside the line ends the comment pattern, such lines are left to the validity predicate)
+                        if let Some(pos) = l.chars().position(|ch| ch == '#').filter(|_| !l.contains('\r')) {
+                            let n = l.chars().count();
+                            comments += 1;
+                            if !matches!(out.slots.get(i), None | Some(crate::common::Slot::Nothing)) && !ui.iter().any(|u| u.ui_type == UiTokenType::Comment && (u.start, u.end) == (pos, n)) {
+                                acc.fail_kf(format!("line {:?}: the comment at characters ({}, {}) is not reported as one Comment token; tokens: {}", l, pos, n, brief(ui)), classify_known(l));
+                                break;
+                            }
+                        }
                     }
                 }
-                acc.finish(rendered).nt(multi_after && ntok >= 2).class("free-text").class_if(multi_after, "token-after-multibyte-char").class_if(changes_length_under_case_mapping(text), "case-mapping-changes-length")
+                acc.finish(rendered).nt(multi_after && ntok >= 2).class("free-text").class_if(comments > 0, "comment-span-checked").class_if(multi_after, "token-after-multibyte-char").class_if(changes_length_under_case_mapping(text), "case-mapping-changes-length")
             }
             Input::Structured(g, inserts, comment, extra) => {
                 // build the last line with inserted words
